@@ -11,7 +11,6 @@ From L2 Require Import Model Base Own Jobs.
 #[export] Instance job_eq_dec : EqDecision job. Proof. solve_decision. Defined.
 #[export] Instance fuse_eq_dec : EqDecision fuse. Proof. solve_decision. Defined.
 #[export] Instance cop_eq_dec : EqDecision cop. Proof. solve_decision. Defined.
-#[export] Instance preg_eq_dec : EqDecision preg. Proof. solve_decision. Defined.
 #[export] Instance kont_eq_dec : EqDecision kont. Proof. solve_decision. Defined.
 #[export] Instance frame_eq_dec : EqDecision frame. Proof. solve_decision. Defined.
 
